@@ -1,4 +1,5 @@
 """Emission model helpers: canonical atoms, flattening of value trees into name-component sequences."""
+import json
 import itertools
 import re
 
@@ -301,9 +302,15 @@ def flatten_c(T, v, depth=0, limit=64):
                 ca = T.canon(a)
                 if ca is not None and ca[1] == [] and ca[0] in OWNERS and ca[0] != 'Id':
                     takes_object = True
+            # a string builder that assembles its result in a loop (`for c in comments { text.push_str(..) }`): the evaluator models
+            # the accumulated value after one iteration (`if <loop ran> …`), which is what a template rule needs to see — the text
+            # around each element and the transforms applied to it
+            from . import inline as _inl2
+            loop_builder = bool(fn.get('loops')) and f not in _inl2.ANCHORS and fn.get('tail') is not None and 'loop_ran' in json.dumps(fn.get('tail'))[:20000] \
+                and any(cc.get('f') in ('push_str', 'push') for cc in fn.get('calls', []))
             # a helper no rule knows by name is just part of the expression that calls it: expand it (its own calls to known
             # transforms stay visible in the via chain) — `swift_property_name(x)` ≡ remove_dash(keyword_aware(x))
-            if takes_object and len(params) == len(args):
+            if (takes_object or loop_builder) and len(params) == len(args):
                 env = dict(zip(params, args))
                 out = []
                 for body in [fn['tail']] + [r['v'] for r in fn.get('returns', []) if r.get('v')]:
